@@ -120,8 +120,8 @@ class Ctx:
     def floor(self, rule: str, got: int, want: int) -> None:
         """Vacuity floor: the rule must have matched at least `want` instances."""
         self.floors[rule] = [got, want]
-        if got < want:
-            raise AnalysisError(f"rule {rule} matched {got} instance(s), below the floor of {want} confirmed by hand")
+        # judged in finish(): a missed floor is an ANALYSIS-ERROR unless the run also found a violation (which
+        # usually explains it - the violating edit removed the instance - and is the more specific report)
 
     def expect_locals(self, fn: ast.AST, names) -> None:
         """The rule about to run identifies statements through these local variable names.  If one of them no
@@ -151,6 +151,11 @@ class Ctx:
                 continue
             seen_keys.add(f.key)
             (listed if f.key in known_keys else new).append(f)
+        missed = [f"rule {r} matched {g} instance(s), below the floor of {w} confirmed by hand" for r, (g, w) in sorted(self.floors.items()) if g < w]
+        if missed and not new:
+            raise AnalysisError("; ".join(missed))
+        for m in missed:
+            self.notes.append("floor missed (reported together with the violation found): " + m)
 
         wall = time.time() - self.t0
         n_obl = len(self.obligations)
